@@ -159,6 +159,8 @@ pub enum E {
 pub enum S {
     Let(Pat, E),
     Assign(String, E),
+    /// `letrec name = |params| body`: the lambda may call itself through `name`
+    LetRec(String, E),
 }
 
 #[derive(Clone, Debug, PartialEq)]
@@ -197,6 +199,7 @@ pub struct Features {
     pub delays: u32,
     pub max_delay: u32,
     pub varying_delay_time: u32,
+    pub fractional_delay_max: u32,
     pub stateful_calls: u32,
     pub stateful_depth: u32,
     pub stateful_in_branch: u32,
@@ -212,6 +215,8 @@ pub struct Features {
     pub branches: u32,
     pub matches: u32,
     pub arrays: u32,
+    pub local_letrec: u32,
+    pub aggregate_arrays: u32,
     pub sibling_closures: u32,
     pub closure_aggregate_params: u32,
     pub shared_cells: u32,
@@ -243,6 +248,7 @@ impl Features {
         f!(self.delays > 0, "f:delay");
         f!(self.delays > 1, "f:multi-delay");
         f!(self.varying_delay_time > 0, "f:varying-delay-time");
+        f!(self.fractional_delay_max > 0, "f:fractional-delay-max");
         f!(self.stateful_calls > 0, "f:stateful-call");
         f!(self.stateful_depth >= 2, "f:nested-stateful");
         f!(self.stateful_in_branch > 0, "f:stateful-in-branch");
@@ -258,6 +264,8 @@ impl Features {
         f!(self.branches > 0, "f:branch");
         f!(self.matches > 0, "f:match");
         f!(self.arrays > 0, "f:array");
+        f!(self.local_letrec > 0, "f:local-letrec");
+        f!(self.aggregate_arrays > 0, "f:array-of-tuples");
         f!(self.sibling_closures > 0, "f:sibling-closures");
         f!(self.closure_aggregate_params > 0, "f:closure-aggregate-params");
         f!(self.shared_cells > 0, "f:shared-cell");
@@ -294,6 +302,12 @@ pub struct PCfg {
     pub now: bool,
     /// delay time expressions may leave [1, N-1]
     pub wild_delay_time: bool,
+    /// local recursive closures (`letrec` inside a function body)
+    pub local_letrec: bool,
+    /// arrays whose elements are tuples
+    pub aggregate_arrays: bool,
+    /// the declared maximum of a delay may be fractional (`delay(4.5, x, t)`)
+    pub fractional_delay_max: bool,
     /// `%`, `^`, log, sqrt … that can produce NaN/inf
     pub partial_math: bool,
     /// dsp may take one tuple parameter (2-3 input channels)
@@ -377,6 +391,9 @@ impl Default for PCfg {
             multi_out: true,
             now: true,
             wild_delay_time: true,
+            fractional_delay_max: true,
+            local_letrec: true,
+            aggregate_arrays: true,
             partial_math: true,
             tuple_inputs: true,
             unannotated_self: true,
@@ -677,6 +694,7 @@ impl<'a> PG<'a> {
             if self.cfg.param_packs && !pack_callees.is_empty() { 3 } else { 0 }, // 23 parameter pack piped into a function
             if self.cfg.factories && !sc.in_lambda && !factories.is_empty() { 3 } else { 0 }, // 24 curried call mk(e)(y) / y |> mk(e)
             if self.cfg.auto_spread && !sc.in_lambda && !unary_callees.is_empty() && (self.cfg.block_operands || !sc.in_operand) { 3 } else { 0 }, // 25 tuple auto-spread through a unary function
+            if self.cfg.local_letrec && self.cfg.closures && sc.allow_closure && !sc.in_lambda && self.fuel > 0 && (self.cfg.block_operands || !sc.in_operand) { 2 } else { 0 }, // 26 local recursive closure
         ];
         match self.g.weighted(&w) {
             0 => self.leaf_num(sc),
@@ -785,9 +803,44 @@ impl<'a> PG<'a> {
                     E::Lit(format!("{}.0", self.g.int(1, (n - 1) as i64)))
                 };
                 let id = self.id();
-                E::Delay(id, n, Box::new(x), Box::new(t))
+                // one delay in four declares a fractional maximum (`delay(4.5, x, t)`): the buffer has
+                // trunc(N) slots, the times generated above stay inside [1, trunc(N)-1]
+                let frac = if self.cfg.fractional_delay_max && self.g.bool(1, 4) { self.g.int(1, 3) as u32 } else { 0 };
+                if frac > 0 {
+                    self.feat.fractional_delay_max += 1;
+                }
+                E::Delay(id, n | (frac << 16), Box::new(x), Box::new(t))
             }
             13 => self.local_closure(sc),
+            26 => {
+                // { letrec rc = |n| { let m = body(n)  if (n > 0.5) { rc(n - 1.0) op m } else { leaf } }  rc(k) }
+                // a local of the closure (m) is live across the recursive call; depth <= 4 by the literal k
+                self.feat.local_letrec += 1;
+                let saved = self.fuel;
+                self.fuel = self.fuel.min(4);
+                let lam = self.lambda(&[Ty::Num], &Ty::Num, sc);
+                self.fuel = saved;
+                let E::Lam(params, body) = lam else { unreachable!() };
+                let n = params[0].name.clone();
+                let rc = self.fresh("rc");
+                let m = self.fresh("m");
+                let op = *self.g.pick(&[Bop::Add, Bop::Sub, Bop::Mul]);
+                let id = self.id();
+                let rec_call = E::Call(id, Box::new(E::Var(rc.clone())), vec![E::Bin(Bop::Sub, Box::new(E::Var(n.clone())), Box::new(E::Lit("1.0".into())))]);
+                let step = if self.g.coin() { E::Bin(op, Box::new(rec_call), Box::new(E::Var(m.clone()))) } else { E::Bin(op, Box::new(E::Var(m.clone())), Box::new(rec_call)) };
+                let base = self.lit();
+                let cond = E::Bin(Bop::Gt, Box::new(E::Var(n.clone())), Box::new(E::Lit("0.5".into())));
+                let new_body = E::Block(vec![S::Let(Pat::Var(m), *body)], Box::new(E::If(Box::new(cond), Box::new(step), Box::new(base))));
+                let k = self.g.int(0, 4);
+                let id2 = self.id();
+                let mut last = E::Call(id2, Box::new(E::Var(rc.clone())), vec![E::Lit(format!("{k}.0"))]);
+                if self.g.bool(1, 3) {
+                    let k2 = self.g.int(0, 3);
+                    let id3 = self.id();
+                    last = E::Bin(Bop::Add, Box::new(last), Box::new(E::Call(id3, Box::new(E::Var(rc.clone())), vec![E::Lit(format!("{k2}.0"))])));
+                }
+                E::Block(vec![S::LetRec(rc, E::Lam(params, Box::new(new_body)))], Box::new(last))
+            }
             14 => {
                 // `let (a, b) = self  a` — projection needs a known tuple type, destructuring does not
                 self.feat.self_uses += 1;
@@ -970,6 +1023,24 @@ impl<'a> PG<'a> {
                 self.feat.arrays += 1;
                 let name = self.fresh("tb");
                 let n = self.g.int(1, 4) as usize;
+                if self.cfg.aggregate_arrays && self.g.bool(1, 3) {
+                    // an array of tuples (elements of 2-3 words): { let tb = [(a, b), ..]  let (p, q) = tb[index]  p * c + q }
+                    self.feat.aggregate_arrays += 1;
+                    let w = self.g.int(2, 3) as usize;
+                    let elems: Vec<E> = (0..n).map(|_| E::Tup((0..w).map(|_| self.small_num(sc)).collect())).collect();
+                    let idx = self.num(sc);
+                    let idx = if self.cfg.array_index_inf { idx } else { E::Bin(Bop::Mul, Box::new(E::B1("sin", Box::new(idx))), Box::new(E::Lit("6.0".into()))) };
+                    let parts: Vec<String> = (0..w).map(|_| self.fresh("el")).collect();
+                    let c = self.lit();
+                    let mut body = E::Bin(Bop::Mul, Box::new(E::Var(parts[0].clone())), Box::new(c));
+                    for q in &parts[1..] {
+                        body = E::Bin(Bop::Add, Box::new(body), Box::new(E::Var(q.clone())));
+                    }
+                    return E::Block(
+                        vec![S::Let(Pat::Var(name.clone()), E::ArrLit(elems)), S::Let(Pat::Tup(parts.iter().map(|q| Pat::Var(q.clone())).collect()), E::Index(Box::new(E::Var(name)), Box::new(idx)))],
+                        Box::new(body),
+                    );
+                }
                 let elems: Vec<E> = (0..n).map(|_| if self.g.bool(1, 3) { self.num(sc) } else { self.small_num(sc) }).collect();
                 let idx = self.num(sc);
                 let idx = if self.cfg.array_index_inf { idx } else { E::Bin(Bop::Mul, Box::new(E::B1("sin", Box::new(idx))), Box::new(E::Lit("6.0".into()))) };
@@ -1710,6 +1781,10 @@ fn render_e_inner(e: &E, lay: &Layout, level: usize, out: &mut String, cn: &mut 
                         let _ = write!(out, "{n} = ");
                         render_e(e, lay, level + 1, out, cn);
                     }
+                    S::LetRec(n, e) => {
+                        let _ = write!(out, "letrec {n} = ");
+                        render_e(e, lay, level + 1, out, cn);
+                    }
                 }
                 if lay.comments {
                     *cn += 1;
@@ -1827,7 +1902,7 @@ fn render_e_inner(e: &E, lay: &Layout, level: usize, out: &mut String, cn: &mut 
             out.push(')');
         }
         E::Delay(_, n, x, t) => {
-            let _ = write!(out, "delay({n}.0, ");
+            let _ = write!(out, "delay({}, ", delay_max_literal(*n));
             render_e(x, lay, level, out, cn);
             out.push_str(", ");
             render_e(t, lay, level, out, cn);
@@ -1950,7 +2025,7 @@ pub fn visit_mut(e: &mut E, f: &mut dyn FnMut(&mut E)) {
         E::Block(ss, last) => {
             for s in ss {
                 match s {
-                    S::Let(_, x) | S::Assign(_, x) => visit_mut(x, f),
+                    S::Let(_, x) | S::Assign(_, x) | S::LetRec(_, x) => visit_mut(x, f),
                 }
             }
             visit_mut(last, f);
@@ -2105,7 +2180,7 @@ fn rename_e(e: &mut E, f: &dyn Fn(&str) -> String) {
                         rename_pat(p, f);
                         rename_e(x, f);
                     }
-                    S::Assign(n, x) => {
+                    S::Assign(n, x) | S::LetRec(n, x) => {
                         *n = f(n);
                         rename_e(x, f);
                     }
@@ -2218,4 +2293,12 @@ pub fn rename_prog(p: &Prog, f: &dyn Fn(&str) -> String) -> Prog {
         }
     }
     q
+}
+
+/// `E::Delay` keeps the declared maximum as trunc(N) in the low 16 bits and a fraction index above
+pub fn delay_max_value(n: u32) -> f64 {
+    (n & 0xffff) as f64 + [0.0, 0.5, 0.25, 0.9][((n >> 16) & 3) as usize]
+}
+pub fn delay_max_literal(n: u32) -> String {
+    format!("{}{}", n & 0xffff, [".0", ".5", ".25", ".9"][((n >> 16) & 3) as usize])
 }
